@@ -601,7 +601,9 @@ func defaultConfigureByState(c *core.Ctx, def, argsL, viperB *ssa.Function) bool
 	runs, und := runTable(c, def, func() (absint.Oracle, []absint.Value, []absint.Value) {
 		t := newTbl(c)
 		t.callee[argsL] = func(ip *absint.Interp, a []absint.Value) absint.Value { return absint.NewTok("ARGS-LOADER", "loader") }
-		t.callee[viperB] = func(ip *absint.Interp, a []absint.Value) absint.Value { return absint.NewTok("MERGING-BINDER", "binder") }
+		t.callee[viperB] = func(ip *absint.Interp, a []absint.Value) absint.Value {
+			return absint.NewTok("MERGING-BINDER", "binder")
+		}
 		t.global = func(g *ssa.Global) absint.Value {
 			if g.Pkg != nil && g.Pkg.Pkg.Path() == "os" {
 				return &absint.Opaque{Why: "os." + g.Name()}
